@@ -67,3 +67,38 @@ def run(ctx):
     em = project.module("ppci/arch/effects.py")
     ok = "return ('set', lhs, rhs)" in norm(ctx.fn("ppci/arch/effects.py", "Assign")) and "return Assign(lhs, rhs)" in norm(ctx.fn("ppci/arch/effects.py", "Set"))
     ctx.ob("C04.R4", "ppci/arch/effects.py", "effects compare structurally: Set and Assign build the same ('set', lhs, rhs) tuple", ok, construct="effects")
+    _float_to_int(ctx)
+
+
+def _float_to_int(ctx):
+    """R7: C (and IR) float -> integer conversion truncates toward zero: cvttss2si / cvttsd2si, not the rounding cvtss2si / cvtsd2si"""
+    import re
+    X = "ppci/arch/x86_64/sse2_instructions.py"
+    ctx.rule("C04.R7", "x86-64 float->integer conversion patterns emit the truncating SSE conversions (cvtt*2si); the non-truncating forms round to nearest under the default MXCSR", floor=4)
+    mod = ctx.project.module(X)
+    mnemonic = {}
+    for c in mod.tree.body:
+        if isinstance(c, ast.ClassDef):
+            for st in c.body:
+                if isinstance(st, ast.Assign) and norm(st.targets[0]) == "syntax" and isinstance(st.value, ast.Call) and st.value.args and isinstance(st.value.args[0], ast.List) and st.value.args[0].elts:
+                    first = st.value.args[0].elts[0]
+                    if isinstance(first, ast.Constant):
+                        mnemonic[c.name] = first.value
+    n = 0
+    for fn in mod.tree.body:
+        if not isinstance(fn, ast.FunctionDef):
+            continue
+        trees = [norm(d.args[1]) for d in fn.decorator_list if isinstance(d, ast.Call) and len(d.args) >= 2]
+        conv = [t for t in trees if re.match(r"'F(32|64)TO[IU](8|16|32|64)[(]", t)]
+        if not conv:
+            continue
+        for c in ast.walk(fn):
+            if isinstance(c, ast.Call) and last_name(c) == "emit" and c.args and isinstance(c.args[0], ast.Call):
+                cls = norm(c.args[0].func).split(".")[-1]
+                mn = mnemonic.get(cls)
+                if mn is None or not mn.startswith("cvt"):
+                    continue
+                n += 1
+                ctx.ob("C04.R7", "%s:%s" % (X, fn.name), "%s is selected with a truncating conversion (emits `%s`)" % (", ".join(t.split("(")[0].strip("'") for t in conv), mn), mn.startswith("cvtt"),
+                       construct="truncating:%s" % fn.name, node=c, detail="%s -> %s" % (cls, mn))
+    ctx.need(n >= 4, "x86_64 float->int conversion patterns not found (%d)" % n)
